@@ -404,6 +404,77 @@ def freshEvents (sem : String → Req → V) : List (Ev Req) → List V
 
 end Machine
 
+/-! ## (viii) the process: any number of objects, each with its own caches
+
+The concrete registries of the package: every object (the backend singletons, every grid, every
+field, every toy instance of the decorator) owns its dictionary `obj._cache_methods`
+(`_class_cache.wrapper`); a `PDE` object owns `self._cache`, a dictionary with ONE slot per
+backend name (`cache = self._cache[backend.name] = {}` on a miss, reused while
+`state.attributes == cache["state_attributes"]`), i.e. a method cache of capacity 1 whose
+"method name" is the backend name.  A history of a process is a list of events, each on some
+object; the capacity may depend on the object and the method. -/
+
+section Process
+variable {Req κ V : Type} [DecidableEq κ]
+
+/-- the caches of a process: object id -> its `_cache_methods` (absent = never touched) -/
+abbrev Proc (κ V : Type) := List (Nat × Methods κ V)
+
+def Proc.get (p : Proc κ V) (o : Nat) : Methods κ V :=
+  match p.lookup o with
+  | some m => m
+  | none => none
+
+def Proc.set (p : Proc κ V) (o : Nat) (m : Methods κ V) : Proc κ V :=
+  (o, m) :: p.filter (fun q => q.1 != o)
+
+/-- all answers of a history of events on any objects of a process -/
+def procRun (cap : Nat → String → Option Nat) (key : Nat → String → Req → κ) (sem : Nat → String → Req → V) :
+    Proc κ V → List (Nat × Ev Req) → List V
+  | _, [] => []
+  | p, (o, .call n r) :: es =>
+    (callMethod (cap o n) (key o) (sem o) (p.get o) n r).2
+      :: procRun cap key sem (p.set o (callMethod (cap o n) (key o) (sem o) (p.get o) n r).1) es
+  | p, (o, .drop) :: es => procRun cap key sem (p.set o none) es
+
+/-- what the history returns when nothing is cached -/
+def procFresh (sem : Nat → String → Req → V) : List (Nat × Ev Req) → List V
+  | [] => []
+  | (o, .call n r) :: es => sem o n r :: procFresh sem es
+  | (_, .drop) :: es => procFresh sem es
+
+/-- the events of one object, in order -/
+def eventsOf (o : Nat) (es : List (Nat × Ev Req)) : List (Ev Req) :=
+  (es.filter (fun e => e.1 == o)).map (·.2)
+
+/-- one request to a `PDE` object: `evolution_rate` / `make_pde_rhs` / `solve` of PDE object `pde` on
+the backend `backend` for a state with the attributes `attrs` and the input `input` (data, time
+range, solver parameters: everything else the call depends on) -/
+structure SolveReq (A D : Type) where
+  pde : Nat
+  backend : String
+  attrs : A
+  input : D
+
+/-- `PDE._cache`: one slot per backend name -/
+def pdeCap : Nat → String → Option Nat := fun _ _ => some 1
+
+/-- the results of a history of requests to PDE objects: `_prepare_cache` hands out the prepared
+right-hand side of the slot (or prepares it), the call applies it to its input -/
+def solveRun {A D R : Type} (key : A → κ) (prepare : Nat → String → A → D → R) :
+    Proc κ (D → R) → List (SolveReq A D) → List R
+  | _, [] => []
+  | p, q :: qs =>
+    (callMethod (pdeCap q.pde q.backend) (fun _ => key) (prepare q.pde) (p.get q.pde) q.backend q.attrs).2 q.input
+      :: solveRun key prepare
+          (p.set q.pde (callMethod (pdeCap q.pde q.backend) (fun _ => key) (prepare q.pde) (p.get q.pde) q.backend q.attrs).1) qs
+
+/-- the prepared right-hand sides the same history hands out (what the check observes) -/
+def solveEvents {A D : Type} (qs : List (SolveReq A D)) : List (Nat × Ev A) :=
+  qs.map (fun q => (q.pde, Ev.call q.backend q.attrs))
+
+end Process
+
 /-! ## (v) cached helpers that captured a buffer identity
 
 A field owns a current buffer (`_data_full`).  `make_interpolator(**kw)` is a cached method
